@@ -8,7 +8,8 @@ from props import c09_extract
 PROP = 'C09'
 TITLE = 'Name representations (URI, component list, wire) are mutually consistent'
 LEAN_TARGETS = ['NdnProofs.Props.C09', 'NdnProofs.Props.C09Tables', 'NdnProofs.Props.C09ToStr',
-                'NdnProofs.Props.ComponentGen', 'NdnProofs.Props.TlvVarGen', 'NdnGen.Component', 'NdnGen.TlvVar']
+                'NdnProofs.Props.ComponentGen', 'NdnProofs.Props.TlvVarGen', 'NdnGen.Component', 'NdnGen.TlvVar',
+                'NdnProofs.Props.NameGen', 'NdnGen.NameGen']
 THEOREMS = [
     'Ndn.C09.decode_encode_name', 'Ndn.C09.normalize_wire',
     'Ndn.C09.isPrefix_iff', 'Ndn.C09.isPrefix_iff_componentwise',
@@ -32,6 +33,10 @@ THEOREMS = [
     'Ndn.ComponentGen.from_number_eq', 'Ndn.ComponentGen.from_typed_number_eq',
     'Ndn.TlvVarGen.all_translated', 'Ndn.TlvVarGen.get_tl_num_size_eq', 'Ndn.TlvVarGen.write_tl_num_eq',
     'Ndn.TlvVarGen.pack_uint_bytes_eq', 'Ndn.TlvVarGen.parse_tl_num_eq',
+    # Name.py wire-level functions TRANSLATED from their source text on every run (-> lean/NdnGen/NameGen.lean: reduce =
+    # fold, for = Py.forEach, while = recursion on fuel) = the model functions (Ndn.Name.*), for all inputs
+    'Ndn.NameGen.all_translated', 'Ndn.NameGen.encoded_length_eq', 'Ndn.NameGen.is_prefix_core_eq',
+    'Ndn.NameGen.encode_eq',
 ]
 PARTIAL = {}
 TRUSTED = [
@@ -45,6 +50,13 @@ TRUSTED = [
     'reported as not translated) and proved equal to the model functions for all inputs; trusted there: the translator, '
     'lean/NdnModel/PySem.lean (the reading of CPython ints, struct, indexing, slicing, bytearray(n), slice assignment it maps '
     'to), module-level constants not rebound from outside the module, arguments of the annotated types',
+    'C09 (Name.py wire-level functions): encoded_length, encode, decode and the last two lines of is_prefix are translated '
+    'from the source text by harness/py2lean.py (reduce(lambda) = a left fold, `for comp in name` = Py.forEach, the `while` '
+    'loop of decode = recursion on a fuel argument whose bound `length + 1` is DECLARED by the request and proved never to '
+    'be exhausted) and proved equal to Ndn.Name.* for all inputs; trusted there, besides the translator and PySem.lean: '
+    'that a FormalName argument is a list of byte strings which the call does not change meanwhile, and - declared by the '
+    'request, stated in the generated file - that Name.normalize returns an equal list on an argument that already is a '
+    'list of byte strings (is_prefix is translated for such arguments only)',
     'C09: lean/NdnGen/C09.lean is regenerated on every run by harness/props/c09_extract.py from Component.py, Name.py and tlv_var.py (live constants of the imported modules, ast shapes, live probes of the range checks and of the TL-number / pack_uint_bytes ladders at the integer constants of their source); the name model READS the character set and the two shorthand tables from it, every other literal of the model is pinned to it by the *_table theorems (closed by evaluation). Trusted: the extractor (an unrecognised shape is emitted as false/unknown and fails tables_recognised), and that a step function is constant between the probed constants of its source',
 ]
 RULE = ('names of 0..8 components, types from {1,2,8,32,50,52,54,56,58,252,253,65535,random 1..65535}, value bytes weighted to '
